@@ -24,7 +24,7 @@ pub fn def() -> PropDef {
                actions = next, next_back, nth(n), nth_back(n) for n in {0..N+2, 2^16, 2^32, 2^63-1, 2^63, usize::MAX-N-2..usize::MAX} on \
                each live iterator and clone (<= 2 live iterators). Every transition replays the history on fresh real iterators, \
                compares the returned item, len() and size_hint() with the reference and, in every new state, drains clones \
-               forwards/backwards and through skip(j)/step_by(j). A state is non-trivial when at least one item has been consumed \
+               forwards/backwards, through skip(j)/step_by(j) and through count()/last()/fold()/rfold(). A state is non-trivial when at least one item has been consumed \
                or a second iterator is live; distinct = distinct (program, profile, state key)",
         trusted_base: &["rustc", "core::ops::Range<usize> as the reference double-ended iterator", "generated vidx() match", "stateright 0.31 BFS"],
         assumptions: &[
@@ -135,6 +135,11 @@ pub trait DynIter {
     fn drain_rev(&self, lim: usize) -> Vec<usize>;
     fn skip_collect(&self, j: usize, lim: usize) -> Vec<usize>;
     fn step_by_collect(&self, j: usize, lim: usize) -> Vec<usize>;
+    /// consuming std methods a derive could specialise: count(), last(), fold(), rfold()
+    fn count_all(&self) -> usize;
+    fn last_item(&self) -> Option<usize>;
+    fn fold_items(&self) -> Vec<usize>;
+    fn rfold_items(&self) -> Vec<usize>;
 }
 
 pub struct IterBox<I: Iterator> {
@@ -200,6 +205,30 @@ where
     fn step_by_collect(&self, j: usize, lim: usize) -> Vec<usize> {
         let f = self.f;
         self.it.clone().step_by(j).take(lim).map(|v| f(&v)).collect()
+    }
+    fn count_all(&self) -> usize {
+        self.it.clone().count()
+    }
+    fn last_item(&self) -> Option<usize> {
+        self.it.clone().last().map(|v| (self.f)(&v))
+    }
+    fn fold_items(&self) -> Vec<usize> {
+        let f = self.f;
+        self.it.clone().fold(Vec::new(), |mut acc, v| {
+            if acc.len() < 64 {
+                acc.push(f(&v));
+            }
+            acc
+        })
+    }
+    fn rfold_items(&self) -> Vec<usize> {
+        let f = self.f;
+        self.it.clone().rfold(Vec::new(), |mut acc, v| {
+            if acc.len() < 64 {
+                acc.push(f(&v));
+            }
+            acc
+        })
     }
 }
 
@@ -369,6 +398,23 @@ impl IterModel {
             let r = guard(|| l.real.drain_rev(lim));
             if r.as_ref() != Ok(&want_r) {
                 return Err(("drain-reverse".into(), format!("it{}.clone().rev().collect() == {:?}", i, want_r), format!("{:?}", r)));
+            }
+            *calls += 4;
+            let c = guard(|| l.real.count_all());
+            if c != Ok(want_f.len()) {
+                return Err(("count".into(), format!("it{}.clone().count() == {}", i, want_f.len()), format!("{:?}", c)));
+            }
+            let la = guard(|| l.real.last_item());
+            if la != Ok(want_f.last().cloned()) {
+                return Err(("last".into(), format!("it{}.clone().last() == {:?}", i, want_f.last()), format!("{:?}", la)));
+            }
+            let fo = guard(|| l.real.fold_items());
+            if fo.as_ref() != Ok(&want_f) {
+                return Err(("fold".into(), format!("it{}.clone().fold(..) visits {:?}", i, want_f), format!("{:?}", fo)));
+            }
+            let rf = guard(|| l.real.rfold_items());
+            if rf.as_ref() != Ok(&want_r) {
+                return Err(("rfold".into(), format!("it{}.clone().rfold(..) visits {:?}", i, want_r), format!("{:?}", rf)));
             }
             for j in [1usize, 2, n.max(1), n + 1, usize::MAX] {
                 *calls += 2;
